@@ -223,7 +223,7 @@ func (handler *Handler) loadByteArray(source []byte) (net1 *dhcpSubnet, net2 *dh
 				fmt.Printf("dhcp4: load config invalid clientID %v \n", v)
 				continue
 			}
-			if v.DHCPExpiry.Before(time.Now()) { // the lease ran out while it was on disk
+			if !v.DHCPExpiry.IsZero() && v.DHCPExpiry.Before(time.Now()) { // the lease ran out while it was on disk
 				continue
 			}
 
